@@ -181,9 +181,16 @@ def fresh_tables(combos, kinds, workdir):
                         for kind in (kinds(c) if callable(kinds) else kinds):
                             f.write('Fresh %s %s %d %s\n' % (k, i, v2, kind))
         outp = os.path.join(workdir, 'fresh_%d_%d.txt' % (ks, iset))
-        vlib.sh([binp, '--scenario', scn, '--data', data, '--out', outp], timeout=1200)
-        if sum(1 for _ in open(outp)) != 8 * len(kinds(c) if callable(kinds) else kinds):
-            raise vlib.Infra('fresh table incomplete for %s' % (c,))
+        rc, out = vlib.sh([binp, '--scenario', scn, '--data', data, '--out', outp], timeout=1200, check=False)
+        got = open(outp).read() if os.path.exists(outp) else ''
+        if sum(1 for l in got.splitlines() if '|' in l) != 8 * len(kinds(c) if callable(kinds) else kinds):
+            if '"e":"Crash"' in got or '"e":"Timeout"' in got:
+                # the LIBRARY crashed while computing a digest from pristine objects: the entries it did not produce are reported as
+                # "missing" by the replay and every hash that needs one is rejected by the trace specification (a violation, with this cause)
+                vlib.log('  fresh table for %s: the library crashed on pristine objects: %s' % (c, [l for l in got.splitlines() if '"e":"' in l][:1]))
+                open(outp, 'w').write('\n'.join(l for l in got.splitlines() if '|' in l) + '\n')
+            else:
+                raise vlib.Infra('fresh table incomplete for %s (rc=%s)' % (c, rc))
         return c, (data, outp)
     with ThreadPoolExecutor(min(vlib.NCPU, max(1, len(combos)))) as ex:
         return dict(ex.map(one, combos))
